@@ -74,8 +74,11 @@ type Case struct {
 	Z []string `json:"z"`
 	W []string `json:"w"`
 	Q []bool   `json:"q"`
-	// Ctx restricts the contexts ("" = all of the result type).
-	Ctx string `json:"ctx,omitempty"`
+	// Ctxs lists the consuming contexts to evaluate besides "ret" (which
+	// is always evaluated); ["*"] = all contexts of the result type.
+	Ctxs []string `json:"ctxs"`
+	// probe marks the internal re-evaluation of a folded consumer.
+	probe bool
 }
 
 func init() { ev.Register("fold", run) }
@@ -238,10 +241,14 @@ var ops = map[string]opInfo{
 	"&&":   {name: "land", ssa: []string{"and"}, result: "bool", bool: true},
 	"||":   {name: "lor", ssa: []string{"or"}, result: "bool", bool: true},
 	"cast": {name: "cast", ssa: []string{"mov", "smov"}, result: "cast", unary: true},
+	// lit: the typed constant itself (T(k), T(-k), -T(k)) handed to the
+	// consumer; the folded operators are the unary minus and the cast of
+	// the spelling.
+	"lit": {name: "lit", result: "same", unary: true},
 }
 
 var intOps = []string{"+", "-", "*", "/", "%", "&", "|", "^", "&^", "<<", ">>",
-	"<", "<=", ">", ">=", "==", "!=", "neg", "cast"}
+	"<", "<=", ">", ">=", "==", "!=", "neg", "cast", "lit"}
 var boolOps = []string{"==", "!=", "not", "&&", "||"}
 
 // Contexts consuming the folded value e.  %e is replaced by the value's
@@ -267,7 +274,7 @@ var intCtx = []ctxInfo{
 	{"eq", "bool", "return %e == z"},
 	{"shr", "T", "return %e >> 1"},
 	{"shl", "T", "return %e << 1"},
-	{"and", "T", "return %e & z"},
+	{"band", "T", "return %e & z"},
 	{"xor", "T", "return %e ^ z"},
 	{"if", "T", "if %e < z {\n\t\treturn z\n\t}\n\treturn w"},
 	{"widen", "W", "return %W(%e) + v"},
@@ -339,6 +346,8 @@ func (cs Case) sources(cx ctxInfo) (pconst, prun string) {
 			return "-" + a
 		case cs.Op == "not":
 			return "!" + a
+		case cs.Op == "lit":
+			return a
 		case cs.Op == "cast":
 			return fmt.Sprintf("%s(%s)", rtn, a)
 		case op.shift:
@@ -579,7 +588,7 @@ func model(cs Case) *big.Int {
 		return bi(a.Sign() != 0 && b.Sign() != 0)
 	case "||":
 		return bi(a.Sign() != 0 || b.Sign() != 0)
-	case "cast":
+	case "cast", "lit":
 		r = a
 	}
 	return pattern(wrap(r, rk, rb), rb)
@@ -588,6 +597,40 @@ func model(cs Case) *big.Int {
 // ---------------------------------------------------------------------------
 // run.
 
+// coarseSign maps the fine operand classes to the ones used in signatures:
+// pos (zero included), neg (minimum and both spellings included), top
+// (unsigned, most significant bit set).
+func coarseSign(l Lit, kind string, bits int) string {
+	switch c := signClass(l, kind, bits); c {
+	case "zero", "pos":
+		return "pos"
+	case "neg", "min", "uneg", "umin":
+		return "neg"
+	default:
+		return c
+	}
+}
+
+// ctxClass groups the consuming contexts: value (the folded value is
+// already wrong when returned as is), cmp, divmod (consumers that look at
+// the value as a number of the declared type), shr/shl/widen (consumers that
+// are folded themselves), wrap (consumers that depend on the low N bits
+// only).
+func ctxClass(name string) string {
+	switch name {
+	case "lt", "rlt", "ge", "eq", "if", "phi", "not", "and", "or":
+		if name == "and" || name == "or" || name == "not" || name == "phi" {
+			return "bool"
+		}
+		return "cmp"
+	case "div", "mod":
+		return "divmod"
+	case "add", "radd", "sub", "rsub", "mul", "xor", "band":
+		return "wrap"
+	}
+	return name
+}
+
 func (cs Case) signature(ctx string) string {
 	op := ops[cs.Op]
 	kind := cs.Kind
@@ -595,26 +638,22 @@ func (cs Case) signature(ctx string) string {
 	if kind == "bool" {
 		wc = "1"
 	}
-	signs := signClass(cs.A, cs.Kind, cs.Bits)
+	signs := coarseSign(cs.A, cs.Kind, cs.Bits)
 	switch {
 	case cs.Op == "cast":
 		dir := "widen"
 		if cs.Bits2 < cs.Bits {
 			dir = "narrow"
 		}
-		signs += fmt.Sprintf(",%s-%s-%s", dir, cs.Kind2, widthClass(cs.Bits2))
+		signs += fmt.Sprintf(",%s-%s", dir, cs.Kind2)
 	case op.shift:
-		k := parse(cs.B.V).Int64()
-		switch {
-		case k == 0:
-			signs += ",k0"
-		case k < int64(cs.Bits):
+		if parse(cs.B.V).Int64() < int64(cs.Bits) {
 			signs += ",k<N"
-		default:
+		} else {
 			signs += ",k>=N"
 		}
 	case !op.unary:
-		signs += "," + signClass(cs.B, cs.Kind, cs.Bits)
+		signs += "," + coarseSign(cs.B, cs.Kind, cs.Bits)
 	}
 	return fmt.Sprintf("%s/%s/%s/%s/%s", op.name, kind, wc, signs, ctx)
 }
@@ -629,18 +668,35 @@ type ctxResult struct {
 	valueZ string
 }
 
+// chained tells whether the consumer is folded itself when e is constant.
+func chained(ctx string) bool { return ctx == "shr" || ctx == "shl" || ctx == "widen" }
+
 func (cs Case) contexts() []ctxInfo {
 	rk, _ := cs.resultType()
 	list := intCtx
 	if rk == "bool" {
 		list = boolCtx
 	}
-	if cs.Ctx == "" {
+	if cs.Op == "lit" && !cs.probe {
+		// T(k) >> 1 is the case (>>, k, 1): no chained consumers.
+		var l []ctxInfo
+		for _, c := range list {
+			if !chained(c.name) {
+				l = append(l, c)
+			}
+		}
+		list = l
+	}
+	if len(cs.Ctxs) == 1 && cs.Ctxs[0] == "*" {
 		return list
 	}
 	var res []ctxInfo
 	for _, c := range list {
-		if c.name == cs.Ctx || c.name == "ret" {
+		want := c.name == "ret"
+		for _, n := range cs.Ctxs {
+			want = want || n == c.name
+		}
+		if want {
 			res = append(res, c)
 		}
 	}
@@ -665,15 +721,87 @@ func run(cs Case) ev.Outcome {
 	return out
 }
 
+// operandCheck compiles "return <operand>" for every integer operand with the
+// case's binding style and compares with the operand's value.  It returns a
+// failure (signature operand/...), a rejection text, or neither.
+func (cs Case) operandCheck() (fail *ev.Outcome, reject string) {
+	op := ops[cs.Op]
+	if cs.Kind == "bool" {
+		return nil, ""
+	}
+	lits := []Lit{cs.A}
+	if !op.unary && !op.shift {
+		lits = append(lits, cs.B)
+	}
+	for _, l := range lits {
+		probe := Case{Op: "lit", Kind: cs.Kind, Bits: cs.Bits, A: l, Bind: cs.Bind,
+			Res: "inline"}
+		src, _ := probe.sources(intCtx[0])
+		pc := compileRun(src)
+		if pc.panic != "" {
+			f := ev.Fail(fmt.Sprintf("foldpanic/%s/lit/%s/%s", panicSite(pc.panic),
+				cs.Kind, widthClass(cs.Bits)), "compiler panics on %s\n%s", src, pc.panic)
+			return &f, ""
+		}
+		if pc.err != "" {
+			return nil, pc.err
+		}
+		zero := new(big.Int)
+		got, err := compute(pc, []*big.Int{zero, zero, zero})
+		want := pattern(parse(l.V), cs.Bits)
+		if err != nil || len(got) != 1 || got[0].Cmp(want) != 0 {
+			f := ev.Fail(fmt.Sprintf("operand/%s/%s/%s", cs.Kind, widthClass(cs.Bits),
+				signClass(l, cs.Kind, cs.Bits)),
+				"the typed constant does not read back as its value: want %s (bit pattern of %s), got %v (%v)\n%s",
+				want, l.V, got, err, src)
+			return &f, ""
+		}
+	}
+	return nil, ""
+}
+
+// consumerBroken tells whether the (folded) consumer context fails in the
+// same way when it is applied to the correct constant, spelled as a literal.
+func (cs Case) consumerBroken(ctx, value string) bool {
+	if value == "" {
+		return false
+	}
+	rk, rb := cs.resultType()
+	l := Lit{V: value, Neg: "cast"}
+	v := parse(value)
+	_, mx := minMax(rk, rb)
+	if v.Sign() < 0 && new(big.Int).Neg(v).Cmp(mx) <= 0 {
+		l.Neg = "unary"
+	}
+	probe := Case{Op: "lit", Kind: rk, Bits: rb, A: l, Bind: "inline", Res: cs.Res,
+		Z: cs.Z, W: cs.W, Q: cs.Q, Ctxs: []string{ctx}, probe: true}
+	fails, _ := evaluateOp(probe, false)
+	return len(fails) > 0
+}
+
 // evaluate runs all contexts of the case and returns every failure (one per
 // failing context) or, when there is none, the passing outcome.
 func evaluate(cs Case) ([]ev.Outcome, ev.Outcome) {
+	return evaluateOp(cs, true)
+}
+
+func evaluateOp(cs Case, checkOperands bool) ([]ev.Outcome, ev.Outcome) {
 	col := ev.Get(prop)
 	op, ok := ops[cs.Op]
 	if !ok {
 		return nil, ev.Outcome{Skip: "unknown operator"}
 	}
 	rk, rb := cs.resultType()
+	if checkOperands && cs.Op != "lit" {
+		fail, reject := cs.operandCheck()
+		if fail != nil {
+			return []ev.Outcome{*fail}, ev.Outcome{}
+		}
+		if reject != "" {
+			col.Count("rejected_operand", 1)
+			return nil, ev.OK(false, "op="+op.name, "bind="+cs.Bind, "operand-rejected")
+		}
+	}
 
 	// Run-time inputs of the operands.
 	var opIn []*big.Int
@@ -722,7 +850,7 @@ func evaluate(cs Case) ([]ev.Outcome, ev.Outcome) {
 				nc += pc.ops[o]
 				nr += pr.ops[o]
 			}
-			res.folded = nc < nr
+			res.folded = nc < nr || cs.Op == "lit"
 			for i := 0; i < nz && !divZero; i++ {
 				var in []*big.Int
 				if rk == "bool" {
@@ -747,13 +875,16 @@ func evaluate(cs Case) ([]ev.Outcome, ev.Outcome) {
 					return nil, ev.Outcome{Skip: "Compute(P_run) failed: " + err.Error()}
 				}
 				res.evals++
+				if cx.name == "ret" && i == 0 && len(want) > 0 {
+					res.valueZ = wrap(want[0], rk, rb).String()
+				}
 				if len(got) != len(want) || got[0].Cmp(want[0]) != 0 {
 					res.diff = fmt.Sprintf("inputs z=%s w=%s: P_const gives %s, P_run(a=%s, b=%s) gives %s\nP_const:\n%s",
 						in[0], in[1], got[0], cs.A.V, cs.B.V, want[0], pconst)
 					break
 				}
 				if cx.name == "ret" && i == 0 {
-					res.valueZ = want[0].String()
+					res.valueZ = wrap(want[0], rk, rb).String()
 					if m := model(cs); m != nil && m.Cmp(want[0]) != 0 {
 						col.Count("prun_differs_from_model", 1)
 						col.Note("P_run disagrees with the math/big model (C03 business): %s: model %s, P_run %s",
@@ -768,8 +899,15 @@ func evaluate(cs Case) ([]ev.Outcome, ev.Outcome) {
 	// Book-keeping and verdict.
 	evals := 0
 	folded := 0
-	retDiffers := false
+	retDiffers, retNofoldDiffers := false, false
+	var retValue string
 	for _, r := range results {
+		if r.name == "ret" {
+			retValue = r.valueZ
+			if r.diff != "" && !r.folded {
+				retNofoldDiffers = true
+			}
+		}
 		evals += r.evals
 		if r.folded {
 			folded++
@@ -792,14 +930,22 @@ func evaluate(cs Case) ([]ev.Outcome, ev.Outcome) {
 			fails = append(fails, ev.Fail(sig, "compiler panics on P_const (context %s): %s",
 				r.name, r.panic))
 		case r.diff != "":
-			ctx := r.name
+			ctx := ctxClass(r.name)
 			prefix := "fold/"
 			if !r.folded {
 				prefix = "nofold/"
-			} else if retDiffers {
-				// The folded value itself is wrong: one signature
-				// for all consumers.
+			}
+			if retDiffers || retNofoldDiffers {
+				// The value itself is wrong: one signature for
+				// all consumers.
 				ctx = "value"
+			} else if chained(r.name) && !cs.probe &&
+				cs.consumerBroken(r.name, retValue) {
+				// The consumer is folded as well and fails in the
+				// same way on the correct constant: that is the
+				// business of the case (consumer operator, value).
+				col.Count("chained_consumer_defect_not_attributed", 1)
+				continue
 			}
 			fails = append(fails, ev.Fail(prefix+cs.signature(ctx),
 				"folded and run-time results differ in context %s: %s", r.name, r.diff))
@@ -964,6 +1110,32 @@ func drawRuntime(t *rapid.T, cs *Case) {
 var binds = []string{"inline", "inline", "inline", "define", "define", "const", "tconst", "vardecl"}
 var ress = []string{"inline", "define", "define", "var"}
 
+// ctxNames returns the names of the non-"ret" contexts of the result type.
+func (cs Case) ctxNames() []string {
+	rk, _ := cs.resultType()
+	list := intCtx
+	if rk == "bool" {
+		list = boolCtx
+	}
+	var res []string
+	for _, c := range list[1:] {
+		res = append(res, c.name)
+	}
+	return res
+}
+
+func drawCtxs(t *rapid.T, cs *Case) []string {
+	names := cs.ctxNames()
+	n := 3
+	var res []string
+	start := rapid.IntRange(0, len(names)-1).Draw(t, "ctx")
+	step := rapid.SampledFrom([]int{1, 5, 7, 11}).Draw(t, "ctxstep")
+	for i := 0; i < n; i++ {
+		res = append(res, names[(start+i*step)%len(names)])
+	}
+	return res
+}
+
 func genCase(t *rapid.T) Case {
 	var cs Case
 	if rapid.IntRange(0, 9).Draw(t, "boolcase") == 0 {
@@ -1023,6 +1195,7 @@ func genCase(t *rapid.T) Case {
 	}
 	cs.Bind = rapid.SampledFrom(binds).Draw(t, "bind")
 	cs.Res = rapid.SampledFrom(ress).Draw(t, "res")
+	cs.Ctxs = drawCtxs(t, &cs)
 	drawRuntime(t, &cs)
 	return cs
 }
